@@ -291,12 +291,8 @@ for (nm, fn, tier, tmo) in [('l5', 'ref_new_l5', 'quick', 1800), ('l6n', 'ref_ne
        models=['needletail (in-memory records)', 'hashbrown', 'ndarray'], stubs=['core::str::from_utf8 -> unchecked (kani::stub)'], sym='one contig of %s bases in either case%s, strand mode' % (nm[1], ' with N' if 'n' in nm[2:] else ''),
        oracle='k-mer list = window specification with centres ascending and strand flags; stored reference is upper-case; contig name', bounds='k=5, ' + nm, timeout=tmo, mem_gb=20, mem_expect_gb=10,
        dead_witnesses=[] if 'n' in nm[2:] else ['first window invalid, a later one indexed'])
-for (nm, fn, tier) in [('mid.5_1_5', 'ref_new_repeats_mid_5_1_5', 'thorough'), ('mid.5_6', 'ref_new_repeats_mid_5_6', 'thorough')]:
-    ob('C04.ref.' + nm, ['C04'], 'ska_ref/new', fn, tier=tier, family='C04.ref', functions=REFNEW, inst='u64', needs_parts=['ska_ref/common', 'split_kmer/common'], caps={'MCAP': 1, 'SCAP': 3, 'RCAP': 1, 'CCAP': 1},
-       models=['needletail (in-memory records)', 'hashbrown', 'ndarray'], stubs=['core::str::from_utf8 -> unchecked (kani::stub)'],
-       sym='contigs ' + nm[4:] + ' with concrete arms AC.TA (so that the repeated split k-mer is a concrete key); middle bases in either case' + (', the base of the 1-base contig over {ACGTN} in either case and the strand mode' if nm == 'mid.5_1_5' else '') + ' symbolic',
-       oracle='k-mer list; repeat coordinates = exactly the absolute positions within (k-1)/2 of a centre whose split k-mer occurs twice' + (' (a contig shorter than k lies between the two occurrences)' if nm == 'mid.5_1_5' else ''),
-       bounds='k=5, contigs ' + nm[4:] + ', repeat mask on', timeout=3600, mem_gb=20, mem_expect_gb=10)
+# C04.ref.mid (ref_new_repeats_mid_5_1_5 / _5_6: concrete arms, symbolic middle bases, repeat mask on) is NOT registered: stopped after
+# 2700 s of symbolic execution without a verdict (harnesses kept in harness/ska_ref/new.rs)
 # the general C04.ref (every base symbolic) is NOT registered: three contigs of 11-12 bases with repeat tracking did
 # not finish in 2 h (ref_new_repeats_* harnesses are kept in harness/ska_ref/new.rs for reference)
 
